@@ -343,6 +343,7 @@ def main(engine_cls):
     ap.add_argument("--selftest-determinism", type=int, default=0,
                     help="run N indices twice (at 4 and at 16 workers) and diff digests")
     ap.add_argument("--dump-keys", action="store_true")
+    ap.add_argument("--dump-digests", help="write {run index: determinism digest} of this exploration to a JSON file")
     ap.add_argument("--dump-viol", help="write every (key, run index, plan) of this exploration to a JSON-lines file (triage aid)")
     ap.add_argument("--plan-of", type=int, default=None, help="print and run the plan of one run index")
     args = ap.parse_args()
@@ -417,6 +418,9 @@ def main(engine_cls):
     by_key = {}
     for key, idx, plan, detail in total["violations"]:
         by_key.setdefault(key, []).append((idx, plan, detail))
+    if args.dump_digests:
+        with open(args.dump_digests, "w") as f:
+            json.dump({str(k): v for k, v in sorted(total["digests"].items())}, f)
     if args.dump_viol:
         with open(args.dump_viol, "w") as f:
             for key, idx, plan, detail in total["violations"]:
